@@ -322,6 +322,7 @@ func checkC03(c *Ctx) {
 	c.checkSingleBucket("O5 open-ends")
 	c.checkBucketStorage("O5 storage-fields", fVal, fDur)
 	c.checkPairAccessors("O5 pair-accessors")
+	c.checkBucketsUsed("O7 buckets-used")
 	// O6: a histogram uses the bounds it was created with (shared with C20 O4)
 	c.checkBucketCacheGet("O6 own-buckets")
 	c.checkBucketsEqual("O6 own-buckets-equal")
@@ -861,5 +862,212 @@ func (c *Ctx) checkPairAccessors(rule string) {
 			}
 		}
 		c.check(ok, rule, "bucketPair."+m.meth, fn.Pos(), "returns p."+m.fld, "bucketPair."+m.meth+" does not return its own field "+m.fld)
+	}
+}
+
+// checkBucketsUsed (O7): a histogram is built from the buckets it was asked for. In Scope.Histogram the
+// specification handed to the cached reporter and to the bucket cache is the caller's argument, replaced
+// by the scope's default buckets exactly when the argument is nil; the scope's default buckets are the
+// configured ones, replaced by the package default exactly when they are nil or empty.
+func (c *Ctx) checkBucketsUsed(rule string) {
+	fDef := c.field("", "scope", "defaultBuckets")
+	fOpt := c.field("", "ScopeOptions", "DefaultBuckets")
+	getFn := c.fn("", "bucketCache", "Get")
+	hist := c.fn("", "scope", "Histogram")
+	if fDef == nil || fOpt == nil || getFn == nil || hist == nil {
+		c.missing(rule, "tally.scope.defaultBuckets / ScopeOptions.DefaultBuckets / bucketCache.Get / scope.Histogram")
+		return
+	}
+	// ---- Scope.Histogram --------------------------------------------------------------------------
+	{
+		fn := hist
+		key := c.fnKey(fn)
+		c.sawFunc(key)
+		param := ssa.Value(fn.Params[2])
+		var used []ssa.Value
+		var at []ssa.Instruction
+		instrsOf(fn, func(in ssa.Instruction) {
+			ci, ok := in.(ssa.CallInstruction)
+			if !ok {
+				return
+			}
+			if staticCallee(ci) == getFn {
+				used = append(used, ci.Common().Args[2])
+				at = append(at, in)
+			}
+			if _, m := ifaceCall(ci); m != nil && m.Name() == "AllocateHistogram" {
+				a := callArgs(ci)
+				used = append(used, a[len(a)-1])
+				at = append(at, in)
+			}
+		})
+		ok := len(used) >= 2
+		why := "the bucket specification is not handed to both the bucket cache and the cached reporter"
+		for i, u := range used {
+			v := canon(stripConv(u))
+			if v == param {
+				continue
+			}
+			phi, isPhi := v.(*ssa.Phi)
+			if !isPhi || len(phi.Edges) != 2 {
+				ok = false
+				why = "the bucket specification used is not the caller's argument (or the scope default for a nil argument)"
+				c.bad(rule, key, at[i].Pos(), why+": the histogram counts against other bounds than the ones requested", c.describe(at[i]))
+				return
+			}
+			for k, e := range phi.Edges {
+				pred := phi.Block().Preds[k]
+				ev := canon(stripConv(e))
+				nilEdge := func(wantNil bool) bool {
+					// pred is reached only with param == nil (resp. != nil)
+					test := func(cond ssa.Value) (bool, bool) {
+						op, x, y, okc := cmpOf(cond)
+						if !okc || (op != token.EQL && op != token.NEQ) {
+							return false, false
+						}
+						if isNilConst(x) {
+							x, y = y, x
+						}
+						if !isNilConst(y) || canon(stripConv(x)) != param {
+							return false, false
+						}
+						return true, (op == token.EQL) == wantNil
+					}
+					if guardedByEdge(pred.Instrs[len(pred.Instrs)-1], test) != nil {
+						return true
+					}
+					// the test block itself is the predecessor (empty else branch)
+					if iff, isIf := condOf(pred); isIf {
+						if m, onTrue := test(iff.Cond); m {
+							idx := 1
+							if onTrue {
+								idx = 0
+							}
+							return pred.Succs[idx] == phi.Block()
+						}
+					}
+					return false
+				}
+				switch {
+				case ev == param:
+					if !nilEdge(false) {
+						ok, why = false, "the caller's buckets are used on a path that is not `argument != nil`"
+					}
+				default:
+					if f, base := loadedField(ev); f == fDef && canon(base) == ssa.Value(fn.Params[0]) {
+						if !nilEdge(true) {
+							ok, why = false, "the scope's default buckets replace the caller's buckets under a condition other than `argument == nil` (a non-nil specification, e.g. a single bucket, is discarded)"
+						}
+					} else {
+						ok, why = false, "the bucket specification is replaced by something other than the scope's default buckets"
+					}
+				}
+			}
+		}
+		c.check(ok, rule, key, fn.Pos(), "cache and reporter get the caller's buckets; the scope default replaces them exactly when they are nil", why+": the histogram counts against other bounds than the ones requested")
+	}
+	// ---- the scope default ------------------------------------------------------------------------
+	for _, fn := range c.funcsOfPkg("") {
+		var stDef *ssa.Store
+		instrsOf(fn, func(in ssa.Instruction) {
+			if st, ok := in.(*ssa.Store); ok {
+				if f, b := addrField(st.Addr); f == fDef {
+					if al, isAl := canon(rootOf(b)).(*ssa.Alloc); isAl && al.Parent() == fn {
+						stDef = st
+					}
+				}
+			}
+		})
+		if stDef == nil || fn.Name() == "Subscope" {
+			continue
+		}
+		if f, _ := loadedField(stDef.Val); f == fDef {
+			continue // inherited from the parent scope
+		}
+		key := c.fnKey(fn) + ":defaultBuckets"
+		c.sawFunc(c.fnKey(fn))
+		if f, _ := loadedField(stDef.Val); f != fOpt {
+			c.bad(rule, key, stDef.Pos(), "the scope's default buckets are not taken from ScopeOptions.DefaultBuckets", c.describe(stDef))
+			continue
+		}
+		// the in-place default: opts.DefaultBuckets = <package default>, reachable exactly through
+		// `== nil` or `Len() < 1`
+		var defaults []*ssa.Store
+		instrsOf(fn, func(in ssa.Instruction) {
+			if st, ok := in.(*ssa.Store); ok && st != stDef {
+				if f, _ := addrField(st.Addr); f == fOpt {
+					defaults = append(defaults, st)
+				}
+			}
+		})
+		if len(defaults) != 1 {
+			c.bad(rule, key, stDef.Pos(), fmt.Sprintf("nil or empty default buckets are replaced by the package default at %d sites (expected one): histograms created with nil buckets get no (or the wrong) default specification", len(defaults)))
+			continue
+		}
+		d := defaults[0]
+		if ld, isLd := stripConv(d.Val).(*ssa.UnOp); !isLd {
+			c.bad(rule, key, d.Pos(), "the replacement for unset default buckets is not a package-level default specification", c.describe(d))
+			continue
+		} else if _, isG := ld.X.(*ssa.Global); !isG {
+			c.bad(rule, key, d.Pos(), "the replacement for unset default buckets is not a package-level default specification", c.describe(d))
+			continue
+		}
+		allowed := map[*ssa.BasicBlock]int{}
+		for _, b := range fn.Blocks {
+			iff, isIf := condOf(b)
+			if !isIf {
+				continue
+			}
+			op, x, y, okc := cmpOf(iff.Cond)
+			if !okc {
+				continue
+			}
+			// opts.DefaultBuckets == nil
+			if op == token.EQL || op == token.NEQ {
+				xx, yy := x, y
+				if isNilConst(xx) {
+					xx, yy = yy, xx
+				}
+				if f, _ := loadedField(stripConv(xx)); f == fOpt && isNilConst(yy) {
+					allowed[b] = b2i(op != token.EQL)
+					continue
+				}
+			}
+			// opts.DefaultBuckets.Len() < 1 (<= 0, == 0; flipped forms)
+			lenCall := func(v ssa.Value) bool {
+				ci, isCall := stripConv(v).(*ssa.Call)
+				if !isCall {
+					return false
+				}
+				r, m := ifaceCall(ci)
+				if m == nil || m.Name() != "Len" {
+					return false
+				}
+				f, _ := loadedField(stripConv(r))
+				return f == fOpt
+			}
+			if lenCall(y) {
+				x, y = y, x
+				op = flipCmp(op)
+			}
+			if !lenCall(x) {
+				continue
+			}
+			k, isK := constInt(y)
+			if !isK {
+				continue
+			}
+			switch {
+			case (op == token.LSS && k == 1) || (op == token.LEQ && k == 0) || (op == token.EQL && k == 0):
+				allowed[b] = 0
+			case (op == token.GEQ && k == 1) || (op == token.GTR && k == 0) || (op == token.NEQ && k == 0):
+				allowed[b] = 1
+			}
+		}
+		e := entryInstr(fn)
+		reach := e != nil && reachThreaded(e, d, nil, nil)
+		other := e != nil && reachThreaded(e, d, allowed, nil)
+		c.check(reach && !other && len(allowed) >= 2, rule, key, d.Pos(), "configured default buckets are kept; the package default replaces them exactly when they are nil or empty",
+			"the package default replaces the configured default buckets under a condition other than `nil or Len() < 1`: a configured specification (e.g. a single bucket) is silently discarded, or an unset one is not replaced", c.describe(d))
 	}
 }
